@@ -487,6 +487,14 @@ BI = {  # name: (predicate number in coq/Analysis/BuiltinCheck.v, column type of
     ":within_distance": (106, "NNN"), ":match_prefix": (107, "AA"), ":string:starts_with": (108, "TT"),
     ":string:ends_with": (109, "TT"), ":string:contains": (110, "TT"), ":filter": (111, "B"),
     ":lt": (112, "NN"), ":le": (113, "NN"), ":gt": (114, "NN"), ":ge": (115, "NN"),
+    # Allen's interval relations on pairs of numbers (start, end)
+    ":interval:before": (116, "PP"), ":interval:after": (117, "PP"), ":interval:meets": (118, "PP"),
+    ":interval:overlaps": (119, "PP"), ":interval:during": (120, "PP"), ":interval:contains": (121, "PP"),
+    ":interval:starts": (122, "PP"), ":interval:finishes": (123, "PP"), ":interval:equals": (124, "PP"),
+    # time / duration comparisons are given NUMBERS: analysis does not look at types, an accepted goal then fails with a
+    # type error ("is not a time": not this property's), a goal accepted with a free variable fails with "not a value"
+    ":time:lt": (125, "NN"), ":time:le": (126, "NN"), ":time:gt": (127, "NN"), ":time:ge": (128, "NN"),
+    ":duration:lt": (129, "NN"), ":duration:le": (130, "NN"), ":duration:gt": (131, "NN"), ":duration:ge": (132, "NN"),
 }
 B_PRED = {"N": 1, "P": 5, "L": 6, "M": 7, "S": 8, "A": 9, "T": 10, "B": 11}     # column type -> EDB predicate
 B_EXTRA = EXTRA + [["p%d" % k, 1] for k in sorted(B_PRED.values()) if k != 1]
@@ -501,7 +509,8 @@ B_VALUES = {
     "B": [dc.name("/true"), dc.name("/false")],
 }
 MODE_PAT = ("not a value", "not a constant", "bad pattern", "must be variables", "unbound", "not bound", "no value",
-            "free variable", "should never happen", "must be string constant", "must be name constant")
+            "free variable", "should never happen", "must be string constant", "must be name constant",
+            "expected constant for interval")
 # the places at which the built-in needs a value ("+" in the documentation of symbols/symbols.go); used only
 # to keep the trigger of recorded finding N106 out of the stream
 B_INPUT = {":match_pair": [0], ":match_cons": [0], ":match_nil": [0], ":match_field": [0, 1], ":match_entry": [0, 1],
@@ -666,6 +675,16 @@ def bi_rel(name, a):
         return {":string:starts_with": x.startswith(y), ":string:ends_with": x.endswith(y), ":string:contains": y in x}[name]
     if name == ":filter":
         return a[0] == ("name", "/true")
+    if name.startswith(":interval:"):
+        for x in a:
+            if x[0] != "pair" or x[1][0] != "n" or x[2][0] != "n":
+                raise Undefined()
+        (s1, e1), (s2, e2) = [(x[1][1], x[2][1]) for x in a]
+        return {"before": e1 < s2, "after": e2 < s1, "meets": e1 == s2, "overlaps": not (e1 < s2) and not (e2 < s1),
+                "during": s1 >= s2 and e1 <= e2, "contains": s2 >= s1 and e2 <= e1, "starts": s1 == s2,
+                "finishes": e1 == e2, "equals": s1 == s2 and e1 == e2}[name[len(":interval:"):]]
+    if name.startswith(":time:") or name.startswith(":duration:"):
+        raise Undefined()          # never evaluated on numbers: Go reports a type error, which is not compared
     raise ValueError(name)
 
 
